@@ -2,6 +2,8 @@
 package props
 
 import (
+	"strings"
+	"go/token"
 	"fmt"
 	"sort"
 
@@ -54,6 +56,12 @@ func (c *Ctx) fn(rel, name string) *ssaFunc {
 	f := c.P.Func(rel, name)
 	if f == nil {
 		f = c.helper(rel, name)
+	}
+	if f == nil {
+		// an unexported method of a type may have become a plain function of the package (or the reverse)
+		if i := strings.Index(name, "."); i >= 0 && !token.IsExported(name[i+1:]) {
+			f = c.P.Func(rel, name[i+1:])
+		}
 	}
 	if f == nil {
 		c.R.Undec(c.R.Prop+".anchor."+rel+"."+name, "", "anchor %s.%s not found in the type-checked program", rel, name)
